@@ -73,6 +73,13 @@ bool Interp::exec_coll(Interp &I, const Stmt &s)
         WiredFn f = wired_fn_for(s.kws("fn", "fn1:0"));
         PortVal d = I.get(a.at(0));
         Port<void> out;
+        if (a.size() == 1 && d.shape == "dl")
+        {
+            // map_ over a DYNAMIC list: one child per element (a separate implementation from the keyed map)
+            out = wire<stdlib::map_>(w, f, Port<S_DL>{w, d.ref});
+            I.env[s.dst] = PortVal{out.template as<S_DL>().erased(), PT::Other, "dl"};
+            return true;
+        }
         if (a.size() == 1) out = wire<stdlib::map_>(w, f, Port<S_TSD>{w, d.ref});
         else if (a.size() == 2 && I.get(a.at(1)).shape == "tsd" && s.kwi("passthrough", 0))
         {
